@@ -335,13 +335,17 @@ package main
 //@   assigns Arr:Str
 //@   ensures length: len(result) <= len(slice) && len(result) >= len(slice) - 1 && len(result) >= 0
 //@   ensures key-path-frame: unchangedBelowExcept("Arr:Str", base(slice))
-//@   ensures same-backing-array: base(result) == base(slice)
+//@   ensures same-backing-array: base(result) == base(slice) && off(result) == off(slice)
+//@   ensures range-frame: unchangedOutside("Arr:Str", base(slice), off(slice), off(slice) + len(slice) - 1)
+//@   ensures result-last: implies(len(result) >= 1, result[len(result)-1] == old(slice[len(slice)-1]) || result[len(result)-1] == marker)
 
 //@ func RemoveElementsBeforeIncluding
 //@   safety C07
 //@   assigns nothing
 //@   ensures length: len(result) == 0 || len(result) < len(slice)
 //@   ensures sub-slice-or-fresh: base(result) == base(slice) || (base(result) > old(heapTop) && base(result) <= heapTop)
+//@   ensures suffix-last: implies(len(result) >= 1, result[len(result)-1] == slice[len(slice)-1])
+//@   ensures within: implies(base(result) == base(slice), off(result) >= off(slice) && off(result) + len(result) == off(slice) + len(slice))
 
 //@ func traverseMapPath
 //@   safety C07
@@ -351,6 +355,9 @@ package main
 //@   ensures table-value: implies(result1, tableVal(result0) && result0 != nil)
 //@   ensures nil-when-absent: implies(!result1, result0 == nil)
 //@   ensures key-path-frame: unchangedBelowExcept("Arr:Str", base(path))
+//@   loop 1 invariant table-entry: (_idx == 0 && current == VMap(operatorMap)) || (_idx >= 1 && TE(path[_idx-1], current))
+//@   ensures range-frame: unchangedOutside("Arr:Str", base(path), off(path), off(path) + len(path) - 1)
+//@   ensures table-entry {C01,C04}: implies(result1 && isOp(result0) && result0 != VOp(5), (len(path) >= 1 && TE(old(path[len(path)-1]), result0)) || MarkerTE(result0))
 
 //@ func getOp
 //@   safety C07
@@ -359,14 +366,21 @@ package main
 //@   ensures table-value: implies(result1, tableVal(result0))
 //@   ensures nil-when-absent: implies(!result1, result0 == nil)
 //@   ensures key-path-frame: unchangedBelowExcept("Arr:Str", base(keyPath))
+//@   ensures range-frame: unchangedOutside("Arr:Str", base(keyPath), off(keyPath), off(keyPath) + len(keyPath) - 1)
+//@   ensures table-entry {C01,C04}: implies(result1 && isOp(result0) && result0 != VOp(5), TE(old(keyPath[len(keyPath)-1]), result0) || MarkerTE(result0))
 
 //@ func reMatchesAnyKeyInPath
 //@   safety C07
+//@   props C14
 //@   assigns nothing
+//@   loop 1 invariant none-so-far: !matchAny(pattern, selems(*keyPath), off(*keyPath), _idx)
+//@   ensures some-name-on-the-path-matches {C14}: result == (keyPath != nil && pattern != nil && matchAny(pattern, selems(*keyPath), off(*keyPath), len(*keyPath)))
 
 //@ func IsEmail
 //@   safety C07
+//@   props C05
 //@   assigns nothing
+//@   ensures classifier {C05,C02}: result == emailShaped(emailRegex, email)
 
 //@ func isRedactableFieldPatternInArray
 //@   safety C07
@@ -374,10 +388,29 @@ package main
 
 //@ func redactScalarValue
 //@   safety C07
+//@   props C05
 //@   assigns Arr:Str, GoMaps
 //@   allocs Arr:Int
 //@   requires nonempty-path: len(keyPath) >= 1
+//@   local pk := keyPath[len(keyPath)-1]
+//@   local gpk := ite(len(keyPath) > 1, keyPath[len(keyPath)-2], "")
+//@   local sel := !isSearchStage && redactedFieldsRegexp != nil
+//@   post_local named := isSelectivelyRedactable || matchAny(redactedFieldsRegexp, selems(keyPath), off(keyPath), len(keyPath))
+//@   local enc := shouldEncrypt && encryptionKey != nil
+//@   local P := phString(redactedString, pk, gpk, emailShaped(emailRegex, strOf(v)))
+//@   local CT := b64enc(daeadEnc(mkbytes(elems(encryptionKey), off(encryptionKey), len(encryptionKey)), sbytes(strOf(v)), noBytes))
 //@   ensures key-path-frame: unchangedBelowExcept("Arr:Str", base(keyPath))
+//@   ensures string-class-placeholder {C05,C02,C19,C10}: implies(isStr(v), result == v || result == VStr(P) || (enc && result == VStr(CT)))
+//@   ensures string-kept-only-where-allowed {C01}: implies(isStr(v) && result == v, (sel && !named) || polExempt(pk) || v == VStr(P) || (enc && v == VStr(CT)))
+//@   ensures number-zero-or-kept {C05,C03,C04}: implies(isNum(v), result == v || (redactNumbers && result == VF64(f64_0)))
+//@   ensures number-kept-only-where-allowed {C01,C04}: implies(isNum(v) && result == v, !redactNumbers || (sel && !named) || polExempt(pk))
+//@   ensures number-verbatim-without-flag {C04}: implies(isNum(v) && !redactNumbers, result == v)
+//@   ensures boolean-false-or-kept {C05,C03}: implies(isBool(v), result == v || (redactBooleans && result == VBool(false)))
+//@   ensures boolean-kept-only-where-allowed {C01}: implies(isBool(v) && result == v, !redactBooleans || (sel && !named) || polExempt(pk) || v == VBool(false))
+//@   ensures null-stays-null {C03}: implies(v == nil, result == nil)
+//@   ensures unchanged-when-no-name-matches {C14}: implies(sel && !named, result == v)
+//@   ensures redacted-when-a-name-matches {C14}: implies(sel && named && isStr(v) && !polExempt(pk), result == VStr(P) || (enc && result == VStr(CT)))
+//@   ensures search-stage-ignores-selection {C14}: implies(isSearchStage && isStr(v) && !polExempt(pk), result == VStr(P) || (enc && result == VStr(CT)))
 
 //@ func parseValue
 //@   safety C07
